@@ -1,4 +1,5 @@
-(* C12 — Cross-validation folds partition the data.  Statements only; proofs in C12Proofs.v.
+(* C12 — Cross-validation folds partition the data.  Statements only; proofs in C12Proofs.v,
+   C12BalancedProofs.v, C12FoldsProofs.v, C12PairingProofs.v.
 
    Proved for all datasets, fold counts, batch sizes, shuffles and index vectors:
    the fold layout produced by batchPartitioning + CVFolds reads out exactly the consecutive
@@ -13,11 +14,37 @@
    n_c / k members plus one more iff one of the n_c mod k running numbers off_c, off_c + 1, ... is
    congruent p modulo k (off_c = number of members of the classes before c): class counts of any two
    folds differ by at most one, for every class.
-   NOT proved (correspondence + monitor only): createCVFullyIndexed / createCVBatch layouts,
-   preservation of the element shape (the shape is not part of the Coq model; it is compared by the
-   correspondence run).                                                                             *)
+   All six constructors as ONE function [cv_create] of a request (C12Folds.v; this function, on containers
+   that carry their element shape, is what the driver runs next to the C++):
+   - createCVFullyIndexed: part p holds exactly the elements first[t] of the steps t with second[t] = p, in
+     the order of the steps; contiguous layout with the counted sizes.
+   - createCVBatch: the dataset is untouched, the folds are the consecutive runs of the shuffled batch
+     indices with lengths nb/k (+1 for the first nb mod k); for every permutation drawn: the folds
+     partition the batch indices, each fold is duplicate-free, validation(p) / training(p) are exactly the
+     batches of the fold / the remaining batches in ascending order.
+   - createCVIID: for EVERY outcome of the draws (any list of n fold numbers below k) and every maximal
+     batch size > 0 the construction succeeds, part p holds exactly the elements that drew p (original
+     order), the parts partition the data; a fold nobody drew is an empty fold (no batches).
+   - CVFolds::validation(p) / training(p), for every contiguous constructor and every p < k: both are
+     defined; validation(p) = positions [a, a+q) of the reorganised element list (a = sizes of the parts
+     before p, q = size of part p), training(p) = the other positions in order; batch sizes of
+     validation(p) = optimalBatchSizes(q, m), of training(p) = those of the other parts one after the
+     other, of the whole set = those of all parts; together they are a permutation of the ORIGINAL data
+     whenever the explicit choices are permutations (req_valid).  For createCVBatch likewise (batch level).
+   - element shape: the set kept by the CVFolds object and every validation / training part have the shape
+     of the argument, for every constructor, every fold, input and label container alike (the shape is a
+     field of the model's container record; all shapes printed by the model driver come from there).
+   - LabeledData: every constructor and both accessors commute with element-wise maps (they never look at
+     the elements), hence the fold objects built for the input and for the label container (driven
+     separately with the same arguments) are the two projections of ONE fold object over (input,label)
+     pairs: same folds, and in the reorganised set and in every validation / training part the i-th
+     input sits next to the i-th label.
+   NOT proved (tie by the correspondence run only): that the C++ loops (per-fold batchElements /
+   validationSetStart bookkeeping, subBatch through a DataView, std::set_difference in detail::complement)
+   compute the list functions of the model (regroup = gather + chunk, complement); the distribution of the
+   random draws (the theorems hold for every outcome).                                               *)
 From Coq Require Import List Arith Permutation.
-From SharkV Require Import ListAux C03Model C03Proofs C03Class C12Model C12Proofs C12BalancedProofs.
+From SharkV Require Import ListAux C03Model C03Proofs C03Class C12Model C12Proofs C12BalancedProofs C12Folds C12FoldsProofs C12PairingProofs.
 Import ListNotations.
 
 Theorem C12_same_size_fold_sizes :
@@ -115,4 +142,212 @@ Example C12_balanced_example :
   exists c, valid_members (elems [[0;1;0;1];[0;0;1]]) [[5;0;2;4];[6;1;3]] = true /\
             cv_balanced 0 [[5;0;2;4];[6;1;3]] 3 2 [[0;1;0;1];[0;0;1]] = Some c /\
             map (fold_elems (cv_set c)) (cv_folds c) = [[0;0;1];[0;1];[0;1]].
+Proof. eexists. vm_compute. repeat split; reflexivity. Qed.
+
+(* ================= all constructors, accessors, shape (C12Folds.v / C12FoldsProofs.v) ================= *)
+
+(* [osz m q] = optimalBatchSizes(q, m) (empty when undefined); [slices], [fold_elems] as above *)
+Theorem C12_createCVFullyIndexed :
+  forall A dflt first second k m (d : @data A) c, cv_fully_indexed dflt first second k m d = Some c ->
+    contiguous_cv c (map (count_eq second) (seq 0 k)) /\
+    map (fold_elems (cv_set c)) (cv_folds c) =
+      map (fun p => map (fun t => nth (nth t first 0) (elems d) dflt)
+                        (filter (fun t => nth t second 0 =? p) (seq 0 (length second)))) (seq 0 k) /\
+    (forall s, In s (sizes (cv_set c)) -> 1 <= s <= m).
+Proof. intros A. exact (@cv_fully_indexed_spec A). Qed.
+Print Assumptions C12_createCVFullyIndexed.
+
+Theorem C12_createCVBatch :
+  forall A bperm k (d : @data A) c,
+    cv_batch bperm k d = Some c -> valid_perm (length d) bperm = true ->
+    cv_set c = d /\
+    cv_folds c = slices (val_sizes (length d) k) bperm /\
+    length (cv_folds c) = k /\
+    map (@length nat) (cv_folds c) = val_sizes (length d) k /\
+    concat (cv_folds c) = bperm /\
+    Permutation (concat (cv_folds c)) (seq 0 (length d)) /\
+    Permutation (concat (map (fold_elems d) (cv_folds c))) (elems d) /\
+    forall p, p < k ->
+      let f := nth p (cv_folds c) [] in
+      f = firstn (nth p (val_sizes (length d) k) 0) (skipn (sum (firstn p (val_sizes (length d) k))) bperm) /\
+      NoDup f /\
+      exists dv dt,
+        validation c p = Some dv /\ training c p = Some dt /\
+        dv = map (fun i => nth i d []) f /\
+        dt = map (fun i => nth i d []) (complement f (length d)) /\
+        Permutation (dv ++ dt) d /\
+        Permutation (elems dv ++ elems dt) (elems d).
+Proof. intros A. exact (@cv_batch_spec A). Qed.
+Print Assumptions C12_createCVBatch.
+
+Theorem C12_createCVIID_every_outcome :
+  forall A dflt draws k m (d : @data A),
+    0 < m -> length draws = nelems d -> (forall i, In i draws -> i < k) ->
+    exists c, cv_iid dflt draws k m d = Some c /\
+      length (cv_folds c) = k /\
+      map (fold_elems (cv_set c)) (cv_folds c) =
+        map (fun p => map (fun i => nth i (elems d) dflt)
+                          (filter (fun i => nth i draws 0 =? p) (seq 0 (length draws)))) (seq 0 k) /\
+      concat (map (fold_elems (cv_set c)) (cv_folds c)) = elems (cv_set c) /\
+      Permutation (elems (cv_set c)) (elems d) /\
+      (forall s, In s (sizes (cv_set c)) -> 1 <= s <= m) /\
+      (forall p, count_eq draws p = 0 -> nth p (cv_folds c) [] = []).
+Proof. intros A. exact (@cv_iid_every_outcome A). Qed.
+Print Assumptions C12_createCVIID_every_outcome.
+
+(* validation(p) / training(p) of any fold object with the batchPartitioning layout *)
+Theorem C12_layout_validation_training :
+  forall A (c : @cv A) psizes m p, cv_layout c psizes m -> p < length psizes ->
+    let E := elems (cv_set c) in
+    let a := sum (firstn p psizes) in
+    let q := nth p psizes 0 in
+    exists dv dt,
+      validation c p = Some dv /\ training c p = Some dt /\
+      elems dv = firstn q (skipn a E) /\
+      elems dt = firstn a E ++ skipn (a + q) E /\
+      sizes dv = osz m q /\
+      sizes dt = concat (map (osz m) (firstn p psizes ++ skipn (S p) psizes)) /\
+      Permutation (elems dv ++ elems dt) E.
+Proof. intros A. exact (@layout_parts A). Qed.
+Print Assumptions C12_layout_validation_training.
+
+(* every constructor that reorganises the set (all but createCVBatch) *)
+Theorem C12_constructor_validation_training :
+  forall A dflt req (d : @data A) c,
+    req_contiguous req = true -> cv_create dflt req d = Some c ->
+    let ps := req_psizes req d in
+    let m := req_m req in
+    let E := map (fun i => nth i (elems d) dflt) (req_order req d) in
+    elems (cv_set c) = E /\
+    sizes (cv_set c) = concat (map (osz m) ps) /\
+    length (cv_folds c) = req_k req /\ length ps = req_k req /\ sum ps = nelems d /\
+    (req_valid req d = true -> Permutation E (elems d)) /\
+    forall p, p < req_k req ->
+      let a := sum (firstn p ps) in
+      let q := nth p ps 0 in
+      exists dv dt,
+        validation c p = Some dv /\ training c p = Some dt /\
+        elems dv = firstn q (skipn a E) /\
+        elems dt = firstn a E ++ skipn (a + q) E /\
+        sizes dv = osz m q /\
+        sizes dt = concat (map (osz m) (firstn p ps ++ skipn (S p) ps)) /\
+        Permutation (elems dv ++ elems dt) E.
+Proof. intros A. exact (@cv_create_parts A). Qed.
+Print Assumptions C12_constructor_validation_training.
+
+(* every constructor, createCVBatch included *)
+Theorem C12_training_validation_reassemble :
+  forall A dflt req (d : @data A) c,
+    cv_create dflt req d = Some c -> req_valid req d = true ->
+    length (cv_folds c) = req_k req /\
+    Permutation (elems (cv_set c)) (elems d) /\
+    Permutation (concat (map (fold_elems (cv_set c)) (cv_folds c))) (elems d) /\
+    forall p, p < req_k req ->
+      NoDup (nth p (cv_folds c) []) /\
+      exists dv dt,
+        validation c p = Some dv /\ training c p = Some dt /\
+        Permutation (dv ++ dt) (cv_set c) /\
+        Permutation (elems dv ++ elems dt) (elems d).
+Proof. intros A. exact (@cv_create_reassemble A). Qed.
+Print Assumptions C12_training_validation_reassemble.
+
+Theorem C12_shape_preserved :
+  forall A S dflt req (x : sdata A S) c,
+    scv_create dflt req x = Some c ->
+    sd_shape (scv_set c) = sd_shape x /\
+    cv_create dflt req (sd_data x) = Some (scv_cv c) /\
+    forall p,
+      (forall v, s_validation c p = Some v ->
+         sd_shape v = sd_shape x /\ validation (scv_cv c) p = Some (sd_data v)) /\
+      (forall t, s_training c p = Some t ->
+         sd_shape t = sd_shape x /\ training (scv_cv c) p = Some (sd_data t)) /\
+      (forall dv, validation (scv_cv c) p = Some dv -> s_validation c p = Some (mkSD (sd_shape x) dv)) /\
+      (forall dt, training (scv_cv c) p = Some dt -> s_training c p = Some (mkSD (sd_shape x) dt)).
+Proof. intros A S. exact (@scv_create_shape A S). Qed.
+Print Assumptions C12_shape_preserved.
+
+Theorem C12_shaped_constructor_defined :
+  forall A S dflt req (x : sdata A S) c0,
+    cv_create dflt req (sd_data x) = Some c0 ->
+    scv_create dflt req x = Some (mkSCV (mkSD (sd_shape x) (cv_set c0)) (cv_folds c0)).
+Proof. intros A S. exact (@scv_create_defined A S). Qed.
+Print Assumptions C12_shaped_constructor_defined.
+
+(* naturality: the constructors and accessors commute with every element-wise map *)
+Theorem C12_constructors_natural :
+  forall A B (f : A -> B) dflt req (d : @data A),
+    cv_create (f dflt) req (transform f d) = omap (cv_map f) (cv_create dflt req d).
+Proof. intros A B. exact (@cv_create_natural A B). Qed.
+Print Assumptions C12_constructors_natural.
+
+Theorem C12_accessors_natural :
+  forall A B (f : A -> B) (c : @cv A) p,
+    validation (cv_map f c) p = omap (transform f) (validation c p) /\
+    training (cv_map f c) p = omap (transform f) (training c p).
+Proof. intros A B. exact (@accessors_natural A B). Qed.
+Print Assumptions C12_accessors_natural.
+
+(* LabeledData: inputs and labels are never separated *)
+Theorem C12_labeled_folds_stay_paired :
+  forall I L di dl req (z : @data (I * L)),
+    match cv_create di req (inputs (paired z)), cv_create dl req (labels (paired z)) with
+    | Some a, Some b => Some (a, b)
+    | _, _ => None
+    end = omap (fun c => (cv_map fst c, cv_map snd c)) (cv_create (di, dl) req z).
+Proof. intros I L. exact (@cv_create_pairing I L). Qed.
+Print Assumptions C12_labeled_folds_stay_paired.
+
+Theorem C12_labeled_parts_stay_paired :
+  forall I L (c : @cv (I * L)) p,
+    match validation (cv_map fst c) p, validation (cv_map snd c) p with
+    | Some a, Some b => Some (mkL a b)
+    | _, _ => None
+    end = omap paired (validation c p) /\
+    match training (cv_map fst c) p, training (cv_map snd c) p with
+    | Some a, Some b => Some (mkL a b)
+    | _, _ => None
+    end = omap paired (training c p).
+Proof. intros I L. exact (@parts_pairing I L). Qed.
+Print Assumptions C12_labeled_parts_stay_paired.
+
+(* ---- the hypotheses are satisfiable ---- *)
+(* steps: element 3 -> fold 1, element 0 -> fold 0, element 4 -> fold 1, element 1 -> fold 2, element 2 -> fold 0 *)
+Example C12_fully_indexed_example :
+  exists c, cv_fully_indexed 0 [3;0;4;1;2] [1;0;1;2;0] 3 2 [[10;11;12];[13;14]] = Some c /\
+            req_valid (ReqFullyIndexed [3;0;4;1;2] [1;0;1;2;0] 3 2) [[10;11;12];[13;14]] = true /\
+            cv_set c = [[10;12];[13;14];[11]] /\ cv_folds c = [[0];[1];[2]].
+Proof. eexists. vm_compute. repeat split; reflexivity. Qed.
+
+(* five batches, shuffled 3 0 4 1 2, two folds: 3 0 4 | 1 2 *)
+Example C12_batch_example :
+  exists c, cv_batch [3;0;4;1;2] 2 [[10];[11;12];[13];[14];[15]] = Some c /\
+            valid_perm 5 [3;0;4;1;2] = true /\
+            cv_folds c = [[3;0;4];[1;2]] /\
+            validation c 0 = Some [[14];[10];[15]] /\ training c 0 = Some [[11;12];[13]].
+Proof. eexists. vm_compute. repeat split; reflexivity. Qed.
+
+(* four folds, nobody drew fold 2: it is an empty fold *)
+Example C12_iid_example :
+  exists c, cv_iid 0 [1;1;0;1;3] 4 2 [[10;11];[12;13];[14]] = Some c /\
+            cv_set c = [[12];[10;11];[13];[14]] /\ cv_folds c = [[0];[1;2];[];[3]] /\
+            validation c 2 = Some [] /\ training c 2 = Some [[12];[10;11];[13];[14]].
+Proof. eexists. vm_compute. repeat split; reflexivity. Qed.
+
+Example C12_layout_example :
+  exists c, cv_create 0 (ReqIndexed [1;1;0;1;3] 4 2) [[10;11];[12;13];[14]] = Some c /\
+            cv_layout c [1;3;0;1] 2 /\ osz 2 3 = [2;1].
+Proof.
+  eexists. split; [vm_compute; reflexivity|]. split; [|reflexivity].
+  unfold cv_layout. split; [reflexivity|]. split; [reflexivity|].
+  intros p [<-|[<-|[<-|[<-|[]]]]]; reflexivity.
+Qed.
+
+Example C12_shape_example :
+  exists c v, scv_create 0 (ReqSameSize [4;2;0;1;3] 2 2) (mkSD (2, 3) [[10;11;12];[13;14]]) = Some c /\
+              s_validation c 1 = Some v /\ sd_shape v = (2, 3) /\ sd_data v = [[11;13]].
+Proof. eexists. eexists. vm_compute. repeat split; reflexivity. Qed.
+
+Example C12_pairing_example :
+  exists c, cv_create (0, 0) (ReqBatch [1;0] 2) [[(10, 0); (11, 1)]; [(12, 1)]] = Some c /\
+            validation (cv_map fst c) 0 = Some [[12]] /\ validation (cv_map snd c) 0 = Some [[1]].
 Proof. eexists. vm_compute. repeat split; reflexivity. Qed.
